@@ -128,7 +128,9 @@ def check_ports(ctx, rng):
             # -s <prio>: the clock thread asks for SCHED_RR priority prio + 1 before it ticks (refused by the kernel above 99, or for
             # lack of privileges): whatever the answer, the clock must run
             prio = rng.choice([None, None, 1, 50, 98, 99, 120])
-            s = Session(defs, bts, bb, bts_addr=addr_of[5700], bb_addr=addr_of[6700], sched_rr_prio=prio, privileged=rng.chance(1, 2))
+            # -b <addr>: every socket of every transceiver (control, data and the clock link) is bound to the configured local address
+            baddr = rng.choice([None, "127.0.0.2", "10.9.8.7", "0.0.0.0"])
+            s = Session(defs, bts, bb, bts_addr=addr_of[5700], bb_addr=addr_of[6700], sched_rr_prio=prio, privileged=rng.chance(1, 2), bind_addr=baddr)
         except Exception as e:  # noqa
             ctx.oracle_fail("the Application cannot be constructed from valid --trx definitions", dict(trx_defs=defs, exception="%s: %s" % (type(e).__name__, e)),
                             key="c12-constructor-raises:" + type(e).__name__)
@@ -150,6 +152,10 @@ def check_ports(ctx, rng):
                 if k_ < len(peer) and any(l.remote_addr != peer[k_] for l in links):
                     ctx.oracle_fail("a link of a transceiver does not talk to its peer's address", dict(trx=str(t), trx_defs=defs, bts_addr=addr_of[5700], bb_addr=addr_of[6700]),
                                     key="c12-peer-address", expected=peer[k_], observed=[l.remote_addr for l in links])
+                bound = [l.sock.bound[0] for l in links]
+                if any(b != (baddr or "0.0.0.0") for b in bound):
+                    ctx.oracle_fail("a socket of a transceiver is not bound to the configured local address (-b): its datagrams (clock indications included) leave from another address",
+                                    dict(trx=str(t), trx_defs=defs, bind_addr=baddr), key="c12-bind-address", expected=baddr or "0.0.0.0", observed=bound)
                 ctx.evaluations += 1
             ports = [p for t in s.trxs for p in ([t.ctrl_if.sock.bound[1], t.data_if.sock.bound[1]] + ([t.clck_if.sock.bound[1]] if t.clck_gen is not None else []))]
             if len(set(ports)) != len(ports):
